@@ -209,7 +209,7 @@ class SInt(object):
             return engine().nl_mul(self, o)
         if isinstance(o, int):
             return mk_int(_mul_const(self.t, int(o)))
-        if isinstance(o, bytes) and len(set(o)) == 1:
+        if isinstance(o, bytes) and len(set(o)) == 1 and getattr(engine(), 'symbolic_regions', False):
             # b'\0' * n with symbolic n: a region of symbolic length with known fill
             return SRegion(self * len(o), kind='bytes', tag=('fill', o[0]))
         if isinstance(o, (bytes, bytearray, SBuf, list, tuple, str)):
